@@ -252,6 +252,93 @@ func clientCancel(be backend, call string, brokerStopped bool) vs.Scenario {
 	}
 }
 
+// wedged: the subscriber does NOT read. A backlog of `backlog` publishes (each
+// with its own context, cancelled at the end) parks the dispatch worker(s) on
+// the subscriber and, for unbuffered back-ends, the event loop behind them.
+// Then `calls` client calls run concurrently, the context of the first one stays
+// live, the contexts of the others are cancelled: those must return. Finally
+// Stop / cancel: Wait returns and every broker goroutine exits although nobody
+// ever read.
+func wedged(be backend, opts pubsub.BrokerOptions, backlog int, call string, calls int, stopHow string) vs.Scenario {
+	return func() (func(), func(*vs.End) (string, string)) {
+		returned := make([]bool, calls)
+		atQuiet := make([]bool, calls)
+		quiet, waitReturned := false, false
+		body := func() {
+			parent, cancelParent := context.WithCancel(context.Background())
+			live, cancelLive := context.WithCancel(context.Background())
+			b := be.mk(parent, opts)
+			sub := b.Subscribe(live) // never read
+			fin := make(chan struct{}, backlog+calls)
+			for i := 1; i <= backlog; i++ {
+				i := i
+				go func() { b.Publish(live, i); fin <- struct{}{} }()
+			}
+			vs.Quiesce()
+			cancels := make([]context.CancelFunc, calls)
+			for c := 0; c < calls; c++ {
+				c := c
+				ctx, cancel := context.WithCancel(context.Background())
+				cancels[c] = cancel
+				go func() {
+					switch call {
+					case "Publish":
+						b.Publish(ctx, 90+c)
+					case "Subscribe":
+						_ = b.Subscribe(ctx)
+					case "Unsubscribe":
+						b.Unsubscribe(ctx, sub)
+					case "Stats":
+						_ = b.Stats(ctx)
+					}
+					returned[c] = true
+					vs.Progress()
+					fin <- struct{}{}
+				}()
+			}
+			vs.Quiesce()
+			for c := 1; c < calls; c++ {
+				cancels[c]()
+			}
+			vs.Quiesce()
+			copy(atQuiet, returned)
+			quiet = true
+			switch stopHow {
+			case "stop":
+				b.Stop()
+			case "cancel":
+				cancelParent()
+			}
+			b.Wait(context.Background())
+			waitReturned = true
+			cancelLive()
+			cancels[0]()
+			for i := 0; i < backlog+calls; i++ {
+				<-fin
+			}
+			cancelParent()
+		}
+		check := func(e *vs.End) (string, string) {
+			where := fmt.Sprintf("%s %+v backlog=%d %dx%s stop=%s (subscriber never reads)", be.name, opts, backlog, calls, call, stopHow)
+			if quiet {
+				for c := 1; c < calls; c++ {
+					if !atQuiet[c] {
+						return "blocked-after-cancelled-" + call, where + fmt.Sprintf(": call %d did not return although its own context was cancelled", c)
+					}
+				}
+			}
+			if t, d := endTag(e); t != "" {
+				if quiet && !waitReturned {
+					return "wait-did-not-return-after-" + stopHow + "/" + t, where + ": " + d
+				}
+				return "not-clean-after-" + stopHow + "/" + t, where + ": " + d
+			}
+			return "", ""
+		}
+		return body, check
+	}
+}
+
 func build(tier string) ([]runner.Instance, time.Duration) {
 	bound, budget := 1, 100*time.Second
 	maxM := 2
@@ -283,6 +370,25 @@ func build(tier string) ([]runner.Instance, time.Duration) {
 		for _, call := range []string{"Publish", "Subscribe", "Unsubscribe", "Stats"} {
 			for _, stopped := range []bool{false, true} {
 				out = append(out, runner.Instance{Group: "client-cancel/" + be.name, Name: fmt.Sprintf("client-cancel/%s/%s,stopped=%v", be.name, call, stopped), Bound: bound + 1, Scenario: clientCancel(be, call, stopped)})
+			}
+		}
+	}
+	for _, be := range backends() {
+		for _, o := range []pubsub.BrokerOptions{{}, {WorkerPoolSize: 2, BufferSize: 1}, {ParallelDispatch: true}} {
+			for _, backlog := range []int{0, 3} {
+				for _, call := range []string{"Publish", "Subscribe", "Unsubscribe", "Stats"} {
+					for _, how := range []string{"stop", "cancel"} {
+						if how == "cancel" && (call != "Publish" || backlog == 0) {
+							continue
+						}
+						if o.ParallelDispatch && (tier != "thorough" || call == "Stats") {
+							continue
+						}
+						calls := 2
+						name := fmt.Sprintf("wedged/%s/par=%v,w=%d,buf=%d/backlog=%d,%dx%s,%s", be.name, o.ParallelDispatch, o.WorkerPoolSize, o.BufferSize, backlog, calls, call, how)
+						out = append(out, runner.Instance{Group: "wedged/" + be.name, Name: name, Bound: bound, Scenario: wedged(be, o, backlog, call, calls, how)})
+					}
+				}
 			}
 		}
 	}
